@@ -6,7 +6,7 @@ CONSTANTS OutFile
 VARIABLE emitted
 TreeRec(t) == [top |-> SetToSeq(t.top),
                kids |-> [d \in DirNames |-> SetToSeq(t.kids[d])],
-               args |-> SetToSeq({[path |-> a.path, abs |-> IF a.abs THEN "1" ELSE "0", dots |-> IF a.dots THEN "1" ELSE "0"] :
+               args |-> SetToSeq({[path |-> a.path, abs |-> IF a.abs THEN "1" ELSE "0", dots |-> IF a.dots THEN "1" ELSE "0", via |-> a.via] :
                                     a \in {x \in ArgsOf(t) : Constrained(x)}})]
 EmitInit == /\ emitted = ndJsonSerialize(OutFile, SetToSeq({TreeRec(t) : t \in Trees}))
             /\ tree = (CHOOSE t \in Trees : TRUE) /\ args = <<>>
